@@ -1,6 +1,8 @@
 package simple
 
 import (
+	"github.com/goose-lang/primitive/disk"
+
 	"github.com/mit-pdos/go-journal/common"
 	"github.com/mit-pdos/go-journal/jrnl"
 	"github.com/mit-pdos/go-journal/util"
@@ -97,6 +99,10 @@ func NFSPROC3_SETATTR_wp(args nfstypes.SETATTR3args, reply *nfstypes.SETATTR3res
 	var ok bool
 	if args.New_attributes.Size.Set_it {
 		newsize := uint64(args.New_attributes.Size.Size)
+		if newsize > disk.BlockSize {
+			reply.Status = nfstypes.NFS3ERR_NOSPC
+			return false
+		}
 		if ip.Size < newsize {
 			data := make([]byte, newsize-ip.Size)
 			ip.Write(op, ip.Size, newsize-ip.Size, data)
